@@ -19,7 +19,8 @@ ID = "C11"
 RULE = ("(a) EXHAUSTIVE enumeration of small skeletons: every parent x child x grandchild over the 15 constructors "
         "(n in {1,2,3,4,6}, exponential bases {e,2,1}, log bases {e,2}, binary/2-ary parents over all depth<=2 "
         "children, leaves {x,y,0,1,-1,2}), all unary chains of three parameterised constructors, self-similar towers (every "
-        "constructor pair nested 6 and 9 times into each of its free slots), and all 3-ary "
+        "constructor pair nested 6 and 9 times into each of its free slots), parent(Add|Multiply(g1(+-x), g2(+-y))) for all "
+        "parameterised unary parents and grandchildren (sliced like the binary part), and all 3-ary "
         "sums/products over rule-relevant children (quick tier: a VERIF_SEED-chosen 1/16 slice of the binary part; "
         "thorough: all of it); (b) generated trees/DAGs up to ~400 nodes and redex templates; (c) nested chains up to "
         "depth 150; (d) raw symbolic partials.  The harness drives _take_reduction_step to the fully-reduced flag and "
@@ -141,8 +142,20 @@ def skeleton_blocks():
                                     pkids[hole[1]] = t
                                 t = mk(pt, pkids, n, b)
                             yield t
+    def nary_mid():
+        """parent( Add|Multiply ( g1(+-x), g2(+-y) ) ) for every parameterised unary parent and grandchildren: the
+        three-level shapes in which a parent rule meets TWO like operands gathered by an n-ary node (same n, same base
+        combinations included because every parameter value is enumerated)."""
+        nx, ny = ("Negation", X), ("Negation", Y)
+        for p_ in us:
+            for mid in ("Add", "Multiply"):
+                for g1 in us:
+                    for a in (X, nx):
+                        for g2 in us:
+                            for b in (Y, ny):
+                                yield p_((mid, (g1(a), g2(b))))
     return [("unary-parents", False, unary_parents), ("chains", False, chains), ("ternary", False, ternary),
-            ("towers", False, towers), ("binary-parents", True, binary_parents)]
+            ("towers", False, towers), ("binary-parents", True, binary_parents), ("nary-mid", True, nary_mid)]
 
 
 def invariant(stats, m, sub, big=False):
@@ -323,7 +336,7 @@ def replay(case):
 def self_test(tier, agg):
     bad = []
     c = agg.get("skeletons", {}).get("counters", {})
-    for b in ("unary-parents", "chains", "ternary", "towers", "binary-parents"):
+    for b in ("unary-parents", "chains", "ternary", "towers", "binary-parents", "nary-mid"):
         if c.get("block:" + b, 0) < (500 if b == "towers" else 1000):
             bad.append(f"C11: skeleton block {b} enumerated too few terms")
     if agg.get("random", {}).get("counters", {}).get("size>=100", 0) < 20:
